@@ -33,6 +33,42 @@ def random_dfa(rnd, n, Sigma, names=None):
     return DFA(set(Q), set(Sg), delta, Q[0], F)
 
 
+def successor_pairs_dfa(k, rnd=None):
+    """k pairwise inequivalent anchor states (a counter modulo k with one accepting state; the second symbol is a self-loop) and one further
+    state for every ordered pair (i, j) of anchors with successors (anchor i, anchor j): every combination of successor classes occurs, so a
+    refinement step that confuses two different successor tuples merges inequivalent states.  More than ten classes for k > 10."""
+    anchors = ['a%d' % i for i in range(k)]
+    delta = {}
+    for i, q in enumerate(anchors):
+        delta[q, 'a'] = anchors[(i + 1) % k]; delta[q, 'b'] = q
+    Q = list(anchors)
+    for i in range(k):
+        for j in range(k):
+            s = 'p%d_%d' % (i, j); Q.append(s)
+            delta[s, 'a'] = anchors[i]; delta[s, 'b'] = anchors[j]
+    if rnd is not None: rnd.shuffle(Q)
+    return DFA(set(Q), {'a', 'b'}, delta, anchors[0], {anchors[0]})
+
+
+def burst_pairs_dfa(m, rnd=None):
+    """m <= 16 accepting states that are separated from each other in ONE refinement round (each has its own combination of four kinds of
+    rejecting successors), one rejecting state per ordered pair (i, j) of them as successors, and a chain that makes every state reachable:
+    2*m*m + m + 3 states, all reachable, pairwise inequivalent; for m > 10 one class splits into more than ten classes at once"""
+    G = ['g%d' % i for i in range(m)]
+    pairs = [(i, j) for i in range(m) for j in range(m)]
+    V = {p_: 'v%d_%d' % p_ for p_ in pairs}; C = {p_: 'r%d_%d' % p_ for p_ in pairs}
+    kind = {'v': V[0, 0], 'x': 'cx', 'y': 'cy', 'd': 'dd'}
+    combos = [(x, y) for x in 'xydv' for y in 'xydv'][:m]
+    delta = {}
+    for g, (x, y) in zip(G, combos): delta[g, 'a'] = kind[x]; delta[g, 'b'] = kind[y]
+    for (i, j) in pairs: delta[V[i, j], 'a'] = G[i]; delta[V[i, j], 'b'] = G[j]
+    for n, p_ in enumerate(pairs):
+        delta[C[p_], 'a'] = V[p_]; delta[C[p_], 'b'] = C[pairs[n + 1]] if n + 1 < len(pairs) else 'dd'
+    delta['cx', 'a'] = G[0]; delta['cx', 'b'] = 'dd'; delta['cy', 'a'] = 'dd'; delta['cy', 'b'] = G[0]; delta['dd', 'a'] = 'dd'; delta['dd', 'b'] = 'dd'
+    Q = set(G) | set(V.values()) | set(C.values()) | {'cx', 'cy', 'dd'}
+    return DFA(Q, {'a', 'b'}, delta, C[pairs[0]], set(G))
+
+
 def all_nfas(n, Sigma, eps='', plain=True, max_targets=None):
     """every NFA with n states over Sigma: each (q, a), a in Sigma+eps, maps to any subset (absent key if empty)"""
     Q = ['q%d' % i for i in range(n)]; Sg = sorted(Sigma)
